@@ -78,7 +78,7 @@ def build_kn(n, slack_buses=(0, 1), jumper=True, parallel=True, loads=False, ext
 class Graph(Part):
     name = 'graph'
     chunk = 64
-    timeout = 10.0
+    timeout = 60.0
 
     def describe(self, tier):
         nmax = 4 if tier == 'quick' else 5
@@ -373,7 +373,7 @@ class Events(Part):
     """Island report after switching events during a static simulation."""
     name = 'events'
     chunk = 4
-    timeout = 30.0
+    timeout = 120.0
 
     def describe(self, tier):
         return ('4-bus ring + chord, slack on bus 1, no dynamics: all multisets of <= 2 line toggles at t in '
